@@ -608,6 +608,6 @@ Definition bf_leb (x y : bf) : bool := match bf_cmp x y with Gt => false | _ => 
 Definition acc_eqb (a b : acc) : bool :=
   match a, b with Below, Below | Exact, Exact | Above, Above => true | _, _ => false end.
 
-Definition bf_zero64 : bf := BFin false 0 0 64.
+Definition bf_zero53 : bf := BFin false 0 0 53.   (* cty.Zero = big.NewFloat(0): precision 53 *)
 Definition bf_pinf0 : bf := BInf false 0.
 Definition bf_ninf0 : bf := BInf true 0.
